@@ -18,7 +18,8 @@ func gen(g *vh.Gen) {
 		c, pool := smtpd.GenCfg(g, o)
 		c.DA, c.DS = true, true
 		stream := smtpd.GenDialogue(g, c, pool, o)
-		g.Emit("smtp", append(c.Fields(), vh.H(stream))...)
+		// one case in eight with an extension that allows every sender and recipient: the size rule is not the extension's to waive
+		g.Emit(g.Pick("smtp", "smtp", "smtp", "smtp", "smtp", "smtp", "smtp", "smtpallow"), append(c.Fields(), vh.H(stream))...)
 	}
 	// long physical lines around the sizes of read buffers (4 KiB steps), ending in a dot, a CR or a letter, in messages
 	// on both sides of the limit: a line reader that hands out a long line in pieces must not take a piece for a line
@@ -83,6 +84,8 @@ func exec(kind string, in []string) []string {
 	switch kind {
 	case "smtp":
 		return smtpd.Exec(in)
+	case "smtpallow":
+		return smtpd.ExecAllow(in)
 	case "asmr":
 		return smtpd.ExecAsm(in)
 	}
